@@ -11,7 +11,10 @@ connect-back, an accept, or the server connection; and, addressed to any of them
 connect outcome (ok / refused / timeout; the init write succeeding, blocking, failing), cancellation of
 the attempt wherever it is parked, first frame (PeerInit / known or unknown PeerPierceFirewall /
 undecodable), frames, partial frame, EOF, reset, read timeout, `disconnect()` calls (any number, at any
-time), `wait_closed` returning late, sends that succeed / block / fail / time out.  Every state of
+time, with any close reason), `wait_closed` returning late, sends that succeed / block / fail / time out, and
+messages queued with `queue_message` (fire-and-forget tasks that `disconnect` cancels): going out at once,
+held back in `drain()` while the connection is closed by anybody, failing or timing out themselves (the queued
+task then closes the connection and is cancelled by its own `disconnect`).  Every state of
 `run ops` is a quiescent point.  `c.evs` is what was observable for connection `c`, in order.
 -/
 namespace AioslskVerif.C10
@@ -167,6 +170,41 @@ theorem C10_server_restart_only (ops : List Op) (c : Conn) (hc : c ∈ (run ops)
         · cases h
     · cases h
 
+/-- Output pending on the socket (a direct `send_message` or a queued message parked in `drain()`) and a parked
+reader exist only while the connection is CONNECTED: once CLOSING (or CLOSED) is the last reported state nothing
+of the connection is left waiting on the socket — whoever closed it, and whatever was queued at that moment. -/
+theorem C10_nothing_pending_unless_connected (ops : List Op) (c : Conn) (hc : c ∈ (run ops).conns)
+    (hs : (states c.evs).getLast? ≠ some .connected) :
+    c.k.sendParked = false ∧ c.k.qParked = false ∧ c.k.reader = false := by
+  have hi := inv_run ops c hc
+  have hl := track_last c.k.origin c.evs .uninit c.k.st hi.hist
+  refine good_parked hi.good fun hst => hs ?_
+  cases hg : (states c.evs).getLast? with
+  | none => rw [hg, hst] at hl; cases hl
+  | some x => rw [hg, hst] at hl; simp only [Option.getD_some] at hl; rw [← hl]
+
+/-- CLOSED is final for a peer connection, step by step: whatever is addressed to a CLOSED peer connection — a
+late connect result, frames, EOF, further `disconnect` / `send_message` / `queue_message` calls — it stays CLOSED
+and unregistered, and nothing is reported, delivered or written. -/
+theorem C10_closed_is_final (k k' : K) (op : COp) (out : List Ev) (hg : good k = true)
+    (hp : k.origin ≠ .server) (hc : k.st = .closed) (h : stepK k op = some (k', out)) :
+    k'.st = .closed ∧ states out = [] ∧ Ev.delivered ∉ out ∧ Ev.wrote ∉ out ∧ k'.registered = false := by
+  obtain ⟨hg', ht, ho, _⟩ := step_ok hg h
+  rw [hc] at ht
+  obtain ⟨h1, h2, h3⟩ := track_closed hp out k'.st ht
+  have hl := track_last k.origin out .closed k'.st ht
+  rw [h1] at hl
+  simp only [List.getLast?_nil, Option.getD_none] at hl
+  refine ⟨hl, h1, h2, h3, ?_⟩
+  cases hr : k'.registered with
+  | false => rfl
+  | true => exact absurd hl ((good_facts hg').1.mp hr).2.1
+
+/-- … in particular a second `connect()` on a peer connection object is not a step of the model at all (the
+server connection is the only one that is ever connected again). -/
+theorem C10_peer_never_reconnects (k : K) (hp : k.origin ≠ .server) : stepK k .restart = none := by
+  simp [stepK, hp]
+
 /-! Non-vacuity: concrete reachable histories. -/
 
 -- accepted connection, EOF before the init message: CONNECTED, CLOSING, CLOSED and the registry is empty again
@@ -176,14 +214,23 @@ example : (run [.new .incoming false false, .at 0 .eof]).conns.map (fun c => (st
 example : (run [.new .direct false false, .at 0 .cancelAttempt]).conns.map (fun c => (states c.evs, c.k.registered)) =
     [([.connecting, .closing, .closed], false)] := by decide
 -- disconnect() while connecting, then the socket opens: nothing more is reported, the attempt fails
-example : (run [.new .direct false false, .at 0 .disconnect, .at 0 (.connectOk .ok)]).conns.map
+example : (run [.new .direct false false, .at 0 (.disconnect .requested), .at 0 (.connectOk .ok)]).conns.map
     (fun c => (c.evs, c.k.sock, c.k.registered)) =
     [([.st .connecting .unknown, .st .closing .requested, .st .closed .requested, .attRes .fail], false, false)] := by decide
 -- established connection delivers, then two concurrent disconnect calls while wait_closed is slow, a send is skipped
-example : (run [.new .incoming false true, .at 0 (.firstFrame .initP), .at 0 (.frame true), .at 0 .disconnect,
-    .at 0 .disconnect, .at 0 (.send .ok), .at 0 .closeDone]).conns.map (fun c => (c.evs, c.k.registered, c.k.live)) =
+example : (run [.new .incoming false true, .at 0 (.firstFrame .initP), .at 0 (.frame true), .at 0 (.disconnect .requested),
+    .at 0 (.disconnect .requested), .at 0 (.send .ok), .at 0 .closeDone]).conns.map (fun c => (c.evs, c.k.registered, c.k.live)) =
     [([.st .connected .unknown, .init false, .delivered, .st .closing .requested, .sendRes true, .st .closed .unknown],
       false, false)] := by decide
+-- a queued message is held back in drain() when a disconnect is requested and a second disconnect (here: EOF seen by
+-- the reader is not even enabled any more) follows: CLOSING, CLOSED once; the queued task ends cancelled
+example : (run [.new .direct false false, .at 0 (.connectOk .ok), .at 0 (.queue .block), .at 0 (.disconnect .requested),
+    .at 0 (.disconnect .eof), .at 0 .eof]).conns.map (fun c => (c.evs.drop 5, c.k.qParked, c.k.registered)) =
+    [([.wrote, .st .closing .requested, .st .closed .requested, .queueRes .cancelled], false, false)] := by decide
+-- the queued send itself times out while wait_closed is slow: its own disconnect cancels it, CLOSED comes at once
+example : (run [.new .incoming false true, .at 0 (.firstFrame .initP), .at 0 (.queue .block), .at 0 .queueTimeout]).conns.map
+    (fun c => (c.evs.drop 2, c.k.live)) =
+    [([.wrote, .st .closing .timeout, .st .closed .timeout, .queueRes .cancelled], false)] := by decide
 -- the server connection does restart
 example : (run [.new .server false false, .at 0 (.connectOk .ok), .at 0 .eof, .at 0 .restart]).conns.map
     (fun c => states c.evs) = [[.connecting, .connected, .closing, .closed, .connecting]] := by decide
